@@ -82,7 +82,7 @@ func c06Final(bi int, conc int, bare bool, wait time.Duration) func(env *Env) st
 func c06Scenarios(tier string) []*Scenario {
 	bound := 2
 	if tier == "thorough" {
-		bound = 3
+		bound = 4
 	}
 	const W = 50 * time.Nanosecond
 	var out []*Scenario
